@@ -4197,6 +4197,7 @@ func c09Once(w *World, r *Result, rule string) {
 					}
 				}
 				regGated := ""
+				linkDropped, linkSites := "", 0
 				for _, b2 := range fn.Blocks {
 					for _, i2 := range b2.Instrs {
 						mu, ok := i2.(*ssa.MapUpdate)
@@ -4236,7 +4237,100 @@ func c09Once(w *World, r *Result, rule string) {
 						}
 					}
 				}
+				// the statements of a file that is included for the first time are all added: whether
+				// one is added depends on the include-once answer only, never on whether a name it
+				// defines is known already (a statement can define several names)
+				for _, g := range w.Funcs("parser") {
+					for _, b2 := range g.Blocks {
+						for _, i2 := range b2.Instrs {
+							ap, ok := i2.(*ssa.Call)
+							if !ok {
+								continue
+							}
+							bi, ok := ap.Call.Value.(*ssa.Builtin)
+							if !ok || bi.Name() != "append" {
+								continue
+							}
+							sl, ok := ap.Type().Underlying().(*types.Slice)
+							if !ok || namedName(sl.Elem()) != "Statement" {
+								continue
+							}
+							isOnce := func(v ssa.Value) bool {
+								if g == fn && onceVals[v] {
+									return true
+								}
+								switch x := v.(type) {
+								case *ssa.Field:
+									return onceFields[[2]interface{}{x.X.Type().String(), x.Field}]
+								case *ssa.UnOp:
+									if fa, ok := x.X.(*ssa.FieldAddr); ok && x.Op == token.MUL {
+										if pt, ok := fa.X.Type().Underlying().(*types.Pointer); ok {
+											return onceFields[[2]interface{}{pt.Elem().String(), fa.Field}]
+										}
+									}
+								}
+								return false
+							}
+							var dependsOnLookup func(v ssa.Value, d int, seen map[ssa.Value]bool) bool
+							dependsOnLookup = func(v ssa.Value, d int, seen map[ssa.Value]bool) bool {
+								if v == nil || d > 6 || seen[v] {
+									return false
+								}
+								seen[v] = true
+								switch x := v.(type) {
+								case *ssa.Lookup:
+									return x.CommaOk
+								case *ssa.Extract:
+									return dependsOnLookup(x.Tuple, d+1, seen)
+								case *ssa.Phi:
+									for _, e := range x.Edges {
+										if dependsOnLookup(e, d+1, seen) {
+											return true
+										}
+									}
+								case *ssa.UnOp:
+									return dependsOnLookup(x.X, d+1, seen)
+								case *ssa.BinOp:
+									return dependsOnLookup(x.X, d+1, seen) || dependsOnLookup(x.Y, d+1, seen)
+								}
+								return false
+							}
+							gated, nameCond := false, ""
+							for d := b2; d != nil; d = d.Idom() {
+								par := d.Idom()
+								if par == nil {
+									continue
+								}
+								cnd, _ := condOf(par)
+								if cnd == nil || len(par.Succs) != 2 {
+									continue
+								}
+								onT := par.Succs[0].Dominates(b2) && len(par.Succs[0].Preds) == 1
+								onF := par.Succs[1].Dominates(b2) && len(par.Succs[1].Preds) == 1
+								if onT == onF {
+									continue
+								}
+								if isOnce(cnd) {
+									gated = true
+								} else if dependsOnLookup(cnd, 0, map[ssa.Value]bool{}) {
+									nameCond = w.Pos(cnd.Pos())
+									if nameCond == "-" || nameCond == "" {
+										nameCond = w.Pos(par.Instrs[len(par.Instrs)-1].Pos())
+									}
+								}
+							}
+							if gated && nameCond != "" && linkDropped == "" {
+								linkDropped = w.Pos(ap.Pos())
+							}
+							if gated {
+								linkSites++
+							}
+						}
+					}
+				}
 				switch {
+				case linkDropped != "":
+					r.Bad(rule, key, pos, "a statement of a file that is included for the first time is added ("+linkDropped+") only when a table look-up of a name it defines finds nothing: a statement that defines several names, one of which is known already (B, A := 2, 3 after var A int), is left out of the program, and the code that uses B runs without it")
 				case regGated != "":
 					r.Bad(rule, key, pos, "the importer learns the public definitions of an imported file ("+regGated+") only when the file's statements are added for the first time: a file that another import has already included stays unknown to this importer, and alias.Func is rejected as undefined")
 				case len(shared) == 0:
@@ -4246,7 +4340,7 @@ func c09Once(w *World, r *Result, rule string) {
 				case !recorded:
 					r.Bad(rule, key, pos, "the imported file is never entered into the shared set of included files: a later import adds its statements again")
 				default:
-					r.Ok(rule, key, pos, "a set shared by reference with the import parsers is consulted and updated under the imported file's identity before its statements are added")
+					r.Ok(rule, key, pos, fmt.Sprintf("a set shared by reference with the import parsers is consulted and updated under the imported file's identity before its statements are added; %d place(s) add the statements, depending on that answer alone", linkSites))
 				}
 			}
 		}
